@@ -50,11 +50,11 @@ SPEC = {
              "least one follow-up mutation was applied on each side; for `ro` at least 40 operations ran; for `img` "
              "all three styles rendered.  distinct = distinct case."),
     "shards": {"quick": 16, "thorough": 16},
-    "min_counts": {"quick": {"evaluations": 1500, "oracle_evals": 60000, "val_ops_returned": 800,
-                             "alias_checks": 800, "followup_result_mutations": 1500,
-                             "followup_operand_mutations": 1500, "ro_ops": 40000, "img_renders": 600,
-                             "img_pairs_compared": 300},
-                   "thorough": {"evaluations": 15000, "oracle_evals": 600000, "val_ops_returned": 8000,
+    "min_counts": {"quick": {"evaluations": 3000, "oracle_evals": 60000, "val_ops_returned": 2500,
+                             "alias_checks": 2500, "followup_result_mutations": 5000,
+                             "followup_operand_mutations": 5000, "ro_ops": 40000, "img_renders": 400,
+                             "img_pairs_compared": 150},
+                   "thorough": {"evaluations": 20000, "oracle_evals": 600000, "val_ops_returned": 15000,
                                 "ro_ops": 400000, "img_renders": 3000}},
     "budget_s": {"quick": 45, "thorough": 520},
     "assumptions": [
@@ -69,7 +69,13 @@ SPEC = {
         "argument domains: split steps/sizes >= 1, `/` needs shape >= 1, `//` a non-empty fiber; halos only with "
         "elements inside the active range; fiber-level swapRanks/unflattenRanks need a non-empty operand "
         "(asserted by the library); flattenRanks styles tuple/pair (linear only with authoritative shapes), "
-        "mergeRanks styles tuple/absolute/relative; scalar + and * at leaf-level fibers only; dense iterators, "
+        "mergeRanks styles tuple/absolute/relative; multi-level flatten/merge only without stored empty fibers, "
+        "flatten/merge below the top only when no stored sub-fiber at that level is content-less (updatePayloads "
+        "skips those, leaving sub-trees of different depth: C09's); a two-level unflatten of a doubly flattened "
+        "tensor only without authoritative shapes, and Tensor.unflattenRanks only when the flattened rank stores "
+        "an element (nested / estimated-as-0 shape bookkeeping: C14's); scalar + and * at leaf-level "
+        "fibers only; fiber + fiber on free fibers only up to depth 2 and without stored empty sub-fibers (a free "
+        "fiber infers interior defaults one level deep); images of compressed-format tensors only; dense iterators, "
         "uncompress, splits and Format only on integer-coordinate (unflattened) trees; uncompress only on trees "
         "without stored empty fibers (all-default nests raise in _fillempty: C13's); `a - b` only with a "
         "compressed a; numSwaps: depth <= ranks-2, radix int >= 2, latency int ('N' only on compressed ranks)",
@@ -624,8 +630,8 @@ def generate(rng, tier, shard, nshards, mon):
         idx += 1
     mon.exhaustive["fixed-trees-ro+img"] = True
     # (iii) random
-    nval, nro, nimg = ((1600, 240, 320) if tier == "quick" else (40000, 5000, 3200))
-    sched = ["val"] * 10 + ["ro"] * 2 + ["img"] * 2
+    nval, nro, nimg = ((4000, 288, 96) if tier == "quick" else (60000, 6400, 2400))
+    sched = ["val"] * 25 + ["ro"] * 2 + ["img"]
     n = (nval + nro + nimg) // nshards
     quota = {"val": nval // nshards, "ro": nro // nshards, "img": nimg // nshards}
     for i in range(n * 2):
@@ -898,9 +904,15 @@ def _guard(op, target, default, cfg, at_leaf_level=True):
     if n in ("add_ff", "mul_ff") and f is not None and f.getOwner() is None and len(fibers_by_level(f)) >= 2:
         if has_empty_fiber(f):
             return "free interior empty fiber"
+        if len(fibers_by_level(f)) >= 3:
+            return "free fibers infer defaults one level deep only"
     if op["level"] == "F" and n == "unflattenRanks":
         if not f.coords or not isinstance(f.coords[0], tuple):
             return "not flattened"
+    if op["level"] == "T" and n == "unflattenRanks":
+        lv = fibers_by_level(f)
+        if len(lv) <= a["depth"] or not any(g.coords for g in lv[a["depth"]]):
+            return "nothing stored in the flattened rank"
     if n in ("add_fs", "add_sf", "mul_fs", "mul_sf"):
         if any(isinstance(p, Fiber) for p in f.payloads) or not at_leaf_level:
             return "not a leaf fiber"
@@ -943,8 +955,8 @@ def _run_val(case, mon):
         if op["name"] in ("add_ff", "mul_ff"):
             cfg2 = dict(cfg)
             otherT, F2 = build(cfg2, case["spec2"]) if not op.get("prep") else (None, gen.fiber_from_spec(case["spec2"], d))
-            other = pick(F2, op.get("path", []))
-            if len(fibers_by_level(other)) != len(fibers_by_level(target)) or \
+            other, olevel = pick(F2, op.get("path", []), want_level=True)
+            if olevel != tlevel or len(fibers_by_level(other)) != len(fibers_by_level(target)) or \
                     (other.getOwner() is None and len(fibers_by_level(other)) >= 2 and has_empty_fiber(other)):
                 mon.count("guard_skipped")
                 return
@@ -1386,17 +1398,19 @@ def _run_img(case, mon):
             mon.count("img_pairs_compared")
             mon.check(ims[0] == ims[1], f"img:{style}:nondeterministic",
                       f"two renderings (style {style}) of the same tensor differ; tree={cfg['spec']} shape={cfg.get('shape')}")
-    # the root fiber rendered on its own
-    try:
-        a = TensorImage(F, style="tree").im.tobytes()
-        b = TensorImage(F, style="tree").im.tobytes()
-        mon.count("img_renders", 2)
-        mon.check(a == b, "img:tree:nondeterministic:fiber", "two renderings of the same fiber differ")
-    except BaseException as e:      # noqa
-        mon.violation(f"img:tree:raised:{type(e).__name__}:fiber", f"TensorImage(fiber) raised {type(e).__name__}: {e}")
-    now = xsnap(T)
-    mon.check(now == before, f"img:tree:modified:{diffkind(before, now) if now != before else ''}:fiber",
-              "rendering the root fiber changed the tensor")
+    # the root fiber rendered on its own (a quarter of the cases)
+    if case.get("fiber_too", len(cfg["spec"]) % 4 == 0):
+        st = STYLES[len(cfg["spec"]) % 3]
+        try:
+            a = TensorImage(F, style=st).im.tobytes()
+            b = TensorImage(F, style=st).im.tobytes()
+            mon.count("img_renders", 2)
+            mon.check(a == b, f"img:{st}:nondeterministic:fiber", "two renderings of the same fiber differ")
+        except BaseException as e:      # noqa
+            mon.violation(f"img:{st}:raised:{type(e).__name__}:fiber", f"TensorImage(fiber) raised {type(e).__name__}: {e}")
+        now = xsnap(T)
+        mon.check(now == before, f"img:{st}:modified:{diffkind(before, now) if now != before else ''}:fiber",
+                  "rendering the root fiber changed the tensor")
     if done == 3 and leaf_paths(F):
         mon.nontrivial()
     mon.state(("img", cfg["depth"], cfg["flavour"], bool(cfg.get("shape")), has_empty_fiber(F)))
